@@ -158,8 +158,19 @@ class SqlFluffColumn(Column):
             if cqt := extract_column_qualifier(segment):
                 col_list = [cqt]
         elif segment.type in FUNCTION_SEGMENT_TYPE:
-            for bracketed in segment.recursive_crawl("bracketed"):
+            for bracketed in segment.recursive_crawl(
+                "bracketed", no_recursive_seg_type="select_statement"
+            ):
                 # the bracketed could be in function_contents or over_clause in case of window function
+                if bracketed.get_child(
+                    "select_statement", "set_expression", "with_compound_statement"
+                ) or (
+                    (expression := bracketed.get_child("expression"))
+                    and expression.get_child("select_statement")
+                ):
+                    # a sub-query argument is analysed as a query when its enclosing bracket is processed,
+                    # its text is not a list of columns of this scope
+                    continue
                 col_list += SqlFluffColumn._get_column_from_parenthesis(bracketed)
         elif segment.type in NON_IDENTIFIER_OR_COLUMN_SEGMENT_TYPE:
             sub_segments = list_child_segments(segment)
